@@ -571,6 +571,35 @@ def gen_conv_program(rng, path, nprocs=1, fmt=None):
                 # value substituted for an out-of-range element is the attribute's all the same
                 p.all('put_att %s _FillValue %s 1 %d' % (v.name, xt, fv))
                 p.tags.add('conv-userfill-attribute-nofill')
+    # attributes through the typed APIs: conversion memory type -> external type on put (unrepresentable element ->
+    # default fill of the type, NC_ERANGE, attribute stored all the same), external -> memory type on get
+    att_xts = [x for x in xts if x != 'char']
+    natt = 0
+    for _ in range(rng.range(3, 6)):
+        xt = rng.choice(att_xts)
+        mt = rng.choice(list(MRANGE) + ['float', 'double'])
+        mlo, mhi = MRANGE.get(mt, (-2**24, 2**24))
+        if xt in XRANGE:
+            xlo, xhi = XRANGE[xt]
+            cands = [xlo, xhi, xlo - 1, xhi + 1, 0, 1, -1, 100, xhi - 1, xlo + 1, 200, -200, 128, 255, 256, 70000, -70000]
+        else:
+            cands = [0, 1, -1, 100, -100, 1000, 16777216, -16777216, 65535, 255]
+        if mt in ('float', 'double') or xt in ('float', 'double'):
+            cands = [c for c in cands if abs(c) <= 2**24]
+        cands = [c for c in cands if mlo <= c <= mhi] or [0]
+        k = rng.range(1, 5)
+        vals = [rng.choice(cands) for _ in range(k)]
+        tgt = rng.choice(['-'] + [v.name for v in vars_])
+        nm = 'a%d' % natt
+        natt += 1
+        p.all('put_attm %s %s %s %s %d %s' % (tgt, nm, xt, mt, k, ' '.join(map(str, vals))))
+        p.all('get_attm %s %s %s' % (tgt, nm, NATIVE[xt]))
+        for mt2 in rng.shuffle(list(MRANGE))[:3] + [rng.choice(['float', 'double', 'text'])]:
+            p.all('get_attm %s %s %s' % (tgt, nm, mt2))
+        p.tags.add('conv-att-%s' % ('float' if xt in ('float', 'double') else 'int'))
+    if rng.chance(1, 2):
+        p.all('put_att - txt char 3 616263')
+        p.all('get_attm - txt %s' % rng.choice(['int', 'double', 'text']))            # NC_ECHAR unless text
     p.all('enddef')
     for v in vars_:
         if v.xt == 'char':
@@ -602,6 +631,7 @@ def gen_conv_program(rng, path, nprocs=1, fmt=None):
     p.all('open %s r -' % path)
     for v in vars_:
         p.all('get var c %s %s c - - - -' % (v.name, NATIVE[v.xt]))
+    p.all('inq')
     p.all('close')
     p.tags.add('conv-fmt%d' % fmt)
     return p
